@@ -195,7 +195,16 @@ func cmdCheck(args []string) int {
 	verbose := fs.Bool("v", false, "verbose")
 	noEvidence := fs.Bool("no-evidence", false, "do not write evidence")
 	timeout := fs.Int("timeout", 0, "per-query timeout (s)")
+	writeHints := fs.Bool("write-hints", false, "record which back end discharged each slow obligation in specs/hints.txt")
 	fs.Parse(args)
+	hintsPath := filepath.Join(verifDir, "specs", "hints.txt")
+	if data, err := os.ReadFile(hintsPath); err == nil {
+		for _, ln := range strings.Split(string(data), "\n") {
+			if i := strings.LastIndex(ln, "\t"); i > 0 && !strings.HasPrefix(ln, "#") {
+				solverHints[ln[:i]] = strings.TrimSpace(ln[i+1:])
+			}
+		}
+	}
 	if *prop == "" {
 		fmt.Fprintln(os.Stderr, "govc check: -prop required")
 		return 2
@@ -437,6 +446,31 @@ func cmdCheck(args []string) int {
 		wg3.Wait()
 	}
 
+	if *writeHints {
+		for _, r := range todo {
+			ob := r.j.vc.Obs[r.k]
+			sv := strings.TrimSuffix(ob.Solver, " (retry)")
+			if strings.Contains(sv, "(group") {
+				continue
+			}
+			if ob.Result == "unsat" && (ob.Secs > 1.0 || (sv != "z3-5.1.0" && sv != ematchSolver.Name)) {
+				solverHints[ob.Name] = sv
+			} else {
+				delete(solverHints, ob.Name)
+			}
+		}
+		var names []string
+		for n := range solverHints {
+			names = append(names, n)
+		}
+		sort.Strings(names)
+		var sb strings.Builder
+		sb.WriteString("# obligation name <TAB> back end that discharged it (performance hints only; written by `govc check -write-hints`)\n")
+		for _, n := range names {
+			sb.WriteString(n + "\t" + solverHints[n] + "\n")
+		}
+		os.WriteFile(hintsPath, []byte(sb.String()), 0644)
+	}
 	// vacuity: every cover (function entry after the preconditions, every loop header after its
 	// invariants) must be reachable, i.e. "false" must not be provable there.
 	vacuous := 0
